@@ -381,9 +381,16 @@ XalanNamespacesStack::prefixIsPresentLocal(const XalanDOMString&    thePrefix)
 void
 XalanNamespacesStack::clear()
 {
-    // Since we always keep one dummy entry at the beginning,
-    // swap with an OutputContextStackType instance of size 1.
-    NamespacesStackType(m_resultNamespaces.getMemoryManager(), 1 ).swap(m_resultNamespaces);
+    // Reset the contexts in place, as popContext() does, instead of
+    // swapping in a new stack with one dummy entry: clear() is called
+    // when the processor is reset, also from destructors, where a
+    // failed allocation cannot be reported.
+    for (NamespacesStackType::iterator i = m_resultNamespaces.begin();
+            i != m_resultNamespaces.end();
+                ++i)
+    {
+        (*i).reset();
+    }
 
     m_stackBegin = m_resultNamespaces.begin();
 
